@@ -149,6 +149,37 @@ func cmdCheck(args []string) int {
 	}
 	x.deadline = time.Now().Add(time.Duration(*budget) * time.Second)
 	x.Run()
+	// Counterexamples that depend on the schedule: look for a variant that the native replay can
+	// stage (library-priority schedules, see sched.go pick) by re-exploring the failing roots.
+	var lpResults []*RootResult
+	{
+		var lpRoots []Root
+		for _, rr := range x.results {
+			for _, f := range rr.Failures {
+				if hasSched(f.Decs) && f.Kind != "race" {
+					r := rr.Root
+					r.LibPrio = true
+					lpRoots = append(lpRoots, r)
+					break
+				}
+			}
+		}
+		if len(lpRoots) > 0 {
+			x2 := &Explorer{P: P, roots: lpRoots, workers: *workers, solverKind: *solver, timeoutMs: to, verbose: *verbose, stopOnFail: true}
+			x2.deadline = time.Now().Add(120 * time.Second)
+			x2.Run()
+			lpResults = x2.results
+			if *verbose {
+				for _, lr := range lpResults {
+					fmt.Printf("  lib-priority re-exploration %s: paths=%d failures=%d inconclusive=%v\n", lr.Root.Key(), lr.Paths, len(lr.Failures), lr.Inconclusive)
+				}
+			}
+			x.stats.Sat += x2.stats.Sat
+			x.stats.Unsat += x2.stats.Unsat
+			x.stats.Unknown += x2.stats.Unknown
+			x.stats.Time += x2.stats.Time
+		}
+	}
 	exploreS := time.Since(start).Seconds()
 
 	// ---- collect ----
@@ -160,6 +191,7 @@ func cmdCheck(args []string) int {
 	var cexs []cexT
 	var inconcl []string
 	paths, decisions, asserts, folded, infeasible, steps := 0, 0, 0, 0, 0, 0
+	raceChecks := 0
 	funcs := map[string]bool{}
 	var samples []sampleT
 	var tapes []*Tape
@@ -172,6 +204,7 @@ func cmdCheck(args []string) int {
 		folded += rr.AssertsFold
 		infeasible += rr.Infeasible
 		steps += rr.Steps
+		raceChecks += rr.RaceChecks
 		for f := range rr.Funcs {
 			funcs[f] = true
 		}
@@ -200,17 +233,52 @@ func cmdCheck(args []string) int {
 			}
 		}
 	}
+	for _, rr := range x.results {
+		for i, w := range rr.Probes {
+			id := fmt.Sprintf("%s#p%d", rr.Root.Key(), i)
+			tapes = append(tapes, &Tape{ID: id, Harness: rr.Root.Harness, Params: rr.Root.Params, Nondet: w.Nondet, Chooses: w.Chooses, Expect: "probe"})
+			tapeRoot[id] = rr
+		}
+	}
+	for _, lr := range lpResults {
+		var orig *RootResult
+		for _, rr := range x.results {
+			if rr.Root.Key() == lr.Root.Key() {
+				orig = rr
+			}
+		}
+		seen := map[string]bool{}
+		for _, f := range lr.Failures {
+			k := "lp|" + f.Kind + "|" + f.Msg + "|" + siteNoFn(f.Site)
+			if seen[k] || orig == nil {
+				continue
+			}
+			seen[k] = true
+			cexs = append(cexs, cexT{orig, f, k})
+		}
+	}
 	for i, c := range cexs {
 		id := fmt.Sprintf("%s#cex%d", c.rr.Root.Key(), i)
-		tapes = append(tapes, &Tape{ID: id, Harness: c.rr.Root.Harness, Params: c.rr.Root.Params, Nondet: c.f.Nondet, Chooses: c.f.Chooses, Expect: "fail", failure: c.f, Sched: hasSched(c.f.Decs)})
+		tp := &Tape{ID: id, Harness: c.rr.Root.Harness, Params: c.rr.Root.Params, Nondet: c.f.Nondet, Chooses: c.f.Chooses, Expect: "fail", failure: c.f, Sched: hasSched(c.f.Decs)}
+		if c.f.LibPrio {
+			tp.Env = c.f.Env
+		}
+		tp.Race = c.f.Kind == "race"
+		tapes = append(tapes, tp)
 		tapeRoot[id] = c.rr
 	}
 
 	// ---- native replay ----
 	validated, mismatches := 0, 0
 	var mismatchNotes []string
+	type nativeCexT struct {
+		tp   *Tape
+		what string
+	}
+	var nativeCex []nativeCexT
 	replayS := 0.0
 	reproduced := map[string]bool{}
+	var unrepro []*Tape
 	if !*noReplay && len(tapes) > 0 {
 		t0 := time.Now()
 		results, err := runNative(genDir, hdir, tapes)
@@ -225,22 +293,63 @@ func cmdCheck(args []string) int {
 					mismatchNotes = appendUniq(mismatchNotes, tp.ID+": no native result")
 					continue
 				}
+				if tp.Expect == "probe" {
+					// model of a path the engine gave up on: only a native failure that honours the
+					// assumptions counts (a reproduced violation); anything else says nothing
+					if !r.AssumeFail && r.Skipped == "" && (len(r.Fails) > 0 || r.Panic != "") {
+						what := r.Panic
+						if len(r.Fails) > 0 {
+							what = r.Fails[0]
+						}
+						nativeCex = append(nativeCex, nativeCexT{tp, what})
+					}
+					continue
+				}
 				if tp.Expect == "ok" {
 					if msg := compareWitness(tp, r); msg != "" {
 						mismatches++
 						mismatchNotes = appendUniq(mismatchNotes, tp.ID+": "+msg)
+						// A witness is a concrete input produced by the solver.  If the REAL code, run
+						// natively on it, fails a harness assertion (or panics) while honouring every
+						// assumption, that is a reproduced violation of the property whatever the engine
+						// predicted for the path (the engine's contract models did not apply to the code).
+						if !tp.Sched && !r.AssumeFail && !r.Underflow && r.Unused == 0 && (len(r.Fails) > 0 || r.Panic != "") {
+							what := r.Panic
+							if len(r.Fails) > 0 {
+								what = r.Fails[0]
+							}
+							nativeCex = append(nativeCex, nativeCexT{tp, what})
+						}
 					} else if r.Skipped == "" {
 						validated++
 					}
 				} else {
-					if len(r.Fails) > 0 || r.Panic != "" || r.Deadlock {
+					ok := (len(r.Fails) > 0 || r.Panic != "" || r.Deadlock) && !r.GateBroken
+					if tp.Race {
+						ok = r.RaceSeen
+					}
+					if ok {
 						reproduced[tp.ID] = true
 						validated++
 					} else {
-						mismatches++
-						mismatchNotes = appendUniq(mismatchNotes, tp.ID+": counterexample did not reproduce natively ("+tp.failure.Kind+": "+tp.failure.Msg+")")
+						unrepro = append(unrepro, tp)
 					}
 				}
+			}
+			// a counterexample whose schedule cannot be staged natively is not a mismatch when a
+			// stageable variant of the same failure kind of the same root did reproduce
+			sibling := map[string]bool{}
+			for _, tp := range tapes {
+				if tp.Expect == "fail" && reproduced[tp.ID] {
+					sibling[tapeRoot[tp.ID].Root.Key()+"|"+tp.failure.Kind] = true
+				}
+			}
+			for _, tp := range unrepro {
+				if sibling[tapeRoot[tp.ID].Root.Key()+"|"+tp.failure.Kind] {
+					continue
+				}
+				mismatches++
+				mismatchNotes = appendUniq(mismatchNotes, tp.ID+": counterexample did not reproduce natively ("+tp.failure.Kind+": "+tp.failure.Msg+")")
 			}
 		}
 	}
@@ -250,8 +359,17 @@ func cmdCheck(args []string) int {
 	violations := 0
 	os.MkdirAll(filepath.Join(verifDir, "evidence", "replays"), 0o755)
 	usedKnown := map[int]bool{}
+	rootReproduced := map[string]bool{}
+	for i, c := range cexs {
+		if reproduced[fmt.Sprintf("%s#cex%d", c.rr.Root.Key(), i)] {
+			rootReproduced[c.rr.Root.Key()+"|"+c.f.Kind] = true
+		}
+	}
 	for i, c := range cexs {
 		id := fmt.Sprintf("%s#cex%d", c.rr.Root.Key(), i)
+		if !*noReplay && !reproduced[id] && rootReproduced[c.rr.Root.Key()+"|"+c.f.Kind] {
+			continue // a natively stageable variant of the same failure of this root reproduced
+		}
 		if !*noReplay && !reproduced[id] {
 			fmt.Printf("ENGINE-MISMATCH property=%s %s: %s (%s) did not reproduce natively; not reported as violation\n", *prop, c.rr.Root.Key(), c.f.Msg, c.f.Site)
 			inconcl = appendUniq(inconcl, "engine mismatch: "+c.rr.Root.Key()+" "+c.f.Msg)
@@ -266,13 +384,48 @@ func cmdCheck(args []string) int {
 		}
 		violations++
 		rp := filepath.Join(verifDir, "evidence", "replays", sanitize(fmt.Sprintf("%s_%s_%d.json", *prop, c.rr.Root.Key(), i)))
-		tp := &Tape{ID: id, Harness: c.rr.Root.Harness, Params: c.rr.Root.Params, Nondet: c.f.Nondet, Chooses: c.f.Chooses, Expect: "fail"}
-		data, _ := json.MarshalIndent(map[string]interface{}{"property": *prop, "tape": tp, "failure": map[string]string{"kind": c.f.Kind, "msg": c.f.Msg, "site": c.f.Site}, "decisions": decString(c.f.Decs)}, "", " ")
+		tp := &Tape{ID: id, Harness: c.rr.Root.Harness, Params: c.rr.Root.Params, Nondet: c.f.Nondet, Chooses: c.f.Chooses, Expect: "fail", Sched: hasSched(c.f.Decs), Race: c.f.Kind == "race"}
+		if c.f.LibPrio {
+			tp.Env = c.f.Env
+		}
+		data, _ := json.MarshalIndent(map[string]interface{}{"property": *prop, "tape": tp, "failure": map[string]string{"kind": c.f.Kind, "msg": c.f.Msg, "site": c.f.Site}, "decisions": decString(c.f.Decs), "env_events": c.f.Env}, "", " ")
 		os.WriteFile(rp, data, 0o644)
 		fmt.Printf("VIOLATION property=%s replay=%s\n", *prop, rp)
 		fmt.Printf("  root=%s kind=%s msg=%q site=%s inputs=%v choices=%v\n", c.rr.Root.Key(), c.f.Kind, c.f.Msg, c.f.Site, trunc(c.f.Nondet, 64), c.f.Chooses)
 		if len(samples) < 10 {
 			samples = append(samples, sampleT{Root: c.rr.Root.Key(), Kind: "counterexample: " + c.f.Kind + ": " + c.f.Msg, Nondet: trunc(c.f.Nondet, 48), Chooses: c.f.Chooses})
+		}
+	}
+	seenNative := map[string]bool{}
+	for i, nc := range nativeCex {
+		rr := tapeRoot[nc.tp.ID]
+		k := rr.Root.Key() + "|" + nc.what
+		if seenNative[k] {
+			continue
+		}
+		seenNative[k] = true
+		kindN := "native-witness"
+		if nc.tp.Expect == "probe" {
+			kindN = "native-probe"
+		}
+		f := &Failure{Kind: kindN, Msg: nc.what}
+		if ki := known.match(*prop, rr.Root, f); ki >= 0 {
+			if !usedKnown[ki] {
+				usedKnown[ki] = true
+				fmt.Printf("KNOWN-FINDING: property=%s %s\n", *prop, known.entries[ki].text)
+			}
+			continue
+		}
+		violations++
+		rp := filepath.Join(verifDir, "evidence", "replays", sanitize(fmt.Sprintf("%s_%s_w%d.json", *prop, rr.Root.Key(), i)))
+		tp := &Tape{ID: nc.tp.ID, Harness: nc.tp.Harness, Params: nc.tp.Params, Nondet: nc.tp.Nondet, Chooses: nc.tp.Chooses, Expect: "fail"}
+		data, _ := json.MarshalIndent(map[string]interface{}{"property": *prop, "tape": tp, "failure": map[string]string{"kind": "native-witness", "msg": nc.what,
+			"note": "solver-generated path witness on which the real code, run natively, fails the harness assertion although the engine's model of the path discharged it"}}, "", " ")
+		os.WriteFile(rp, data, 0o644)
+		fmt.Printf("VIOLATION property=%s replay=%s\n", *prop, rp)
+		fmt.Printf("  root=%s kind=%s msg=%q inputs=%v choices=%v\n", rr.Root.Key(), kindN, nc.what, trunc(nc.tp.Nondet, 64), nc.tp.Chooses)
+		if len(samples) < 10 {
+			samples = append(samples, sampleT{Root: rr.Root.Key(), Kind: "counterexample (native replay of a solver witness): " + nc.what, Nondet: trunc(nc.tp.Nondet, 48), Chooses: nc.tp.Chooses})
 		}
 	}
 	for _, n := range mismatchNotes {
@@ -293,6 +446,17 @@ func cmdCheck(args []string) int {
 		for _, r := range roots {
 			if len(rootKeys) < 40 {
 				rootKeys = append(rootKeys, r.Key())
+			}
+		}
+		var repoFuncs, harnessFuncs, modelFuncs []string
+		for _, f := range sortedKeys(funcs) {
+			switch {
+			case strings.HasPrefix(f, "harness:"):
+				harnessFuncs = append(harnessFuncs, strings.TrimPrefix(f, "harness:"))
+			case strings.HasPrefix(f, "model:"):
+				modelFuncs = append(modelFuncs, strings.TrimPrefix(f, "model:"))
+			default:
+				repoFuncs = append(repoFuncs, f)
 			}
 		}
 		ev := map[string]interface{}{
@@ -318,15 +482,19 @@ func cmdCheck(args []string) int {
 				"queries":                          map[string]int{"sat": x.stats.Sat, "unsat": x.stats.Unsat, "unknown": x.stats.Unknown, "errors": x.stats.Errors},
 				"solver_s":                         x.stats.Time.Seconds(),
 				"solver":                           *solver + " (fallback cvc5 on unknown obligations)",
-				"functions_encoded":                sortedKeys(funcs),
+				"functions_encoded":                repoFuncs,
+				"harness_functions_executed":       len(harnessFuncs),
+				"contract_models_used":             modelFuncs,
 				"inconclusive":                     inconcl,
 				"engine_mismatches":                mismatchNotes,
 				"known_findings_matched":           len(usedKnown),
 				"ssa_instructions_executed":        steps,
+				"race_monitor_accesses_checked":    raceChecks,
+				"lib_priority_reexplored_roots":    len(lpResults),
 				"load_s":                           loadS,
 				"replay_s":                         replayS,
 			},
-			"assumptions": assumptionsFor(*prop),
+			"assumptions": append(assumptionsFor(*prop), harnessAssumes(filepath.Join(verifDir, "harness"), harnessFuncs)...),
 		}
 		data, _ := json.MarshalIndent(ev, "", " ")
 		os.MkdirAll(filepath.Join(verifDir, "evidence"), 0o755)
